@@ -20,9 +20,9 @@ def b_len(it, args, kwargs, node):
     v = it.to_val(v)
     st = it.st
     ref = Val.ref(v)
-    cls = z3.Select(it.heap.get('cls'), ref)
-    n_obj = z3.If(cls == V.DICT_CID, z3.Length(z3.Select(it.heap.get('dkeys'), ref)),
-                  z3.Length(z3.Select(it.heap.get('list'), ref)))
+    cls = it.st.sel(it.heap.get('cls'), ref)
+    n_obj = z3.If(cls == V.DICT_CID, z3.Length(it.st.sel(it.heap.get('dkeys'), ref)),
+                  z3.Length(it.st.sel(it.heap.get('list'), ref)))
     term = Val.i(z3.If(Val.is_s(v), z3.Length(Val.sv(v)), z3.If(Val.is_t(v), z3.Length(Val.tv(v)), n_obj)))
     if it.pure:
         return term
@@ -74,7 +74,7 @@ def _class_list(it, c):
 def instance_test(it, v, pycls):
     """z3 Bool: isinstance(v, pycls) under the value model"""
     v = it.to_val(v)
-    cls = z3.Select(it.heap.get('cls'), Val.ref(v))
+    cls = it.st.sel(it.heap.get('cls'), Val.ref(v))
     alts = []
     if pycls is object:
         return z3.BoolVal(True)
@@ -197,7 +197,7 @@ def b_type(it, args, kwargs, node):
         raise Unsupported('type() with 3 arguments')
     v = it.to_val(args[0])
     st = it.st
-    cls = z3.Select(it.heap.get('cls'), Val.ref(v))
+    cls = it.st.sel(it.heap.get('cls'), Val.ref(v))
     return z3.If(Val.is_o(v), Val.c(cls),
                  z3.If(Val.is_i(v), V.mk_const(int), z3.If(Val.is_s(v), V.mk_const(str),
                        z3.If(Val.is_b(v), V.mk_const(bool), z3.If(Val.is_f(v), V.mk_const(float),
@@ -214,7 +214,7 @@ def b_callable(it, args, kwargs, node):
         return V.mk_bool(callable(v.obj))
     v = it.to_val(v)
     f = V.uf('py_callable', Val, V.B)
-    cls = z3.Select(it.heap.get('cls'), Val.ref(v))
+    cls = it.st.sel(it.heap.get('cls'), Val.ref(v))
     builtin_container = z3.And(Val.is_o(v), z3.Or(cls == V.LIST_CID, cls == V.DICT_CID, cls == V.SET_CID))
     return Val.b(z3.If(z3.Or(Val.is_none(v), Val.is_i(v), Val.is_s(v), Val.is_b(v), Val.is_f(v), Val.is_t(v),
                              builtin_container),
